@@ -56,6 +56,9 @@
  * precedes libc in the lookup scope).  With RTDRV_SHORTWRITE=<seed> every
  * write of more than one byte becomes a genuine partial write, which the
  * kernel is always allowed to do. */
+static int eintr_on;
+static unsigned eintr_seed;
+static _Atomic unsigned long eintr_count;
 static int shortwrite_on = -1;
 static unsigned shortwrite_seed;
 static _Thread_local unsigned sw_state;
@@ -69,11 +72,27 @@ shortwrite_init(void)
 	const char *e = getenv("RTDRV_SHORTWRITE");
 	shortwrite_seed = e ? (unsigned) atoi(e) : 0;
 	shortwrite_on = e != NULL;
+	/* RTDRV_EINTR=<seed>: some writes fail with EINTR before transferring
+	 * anything (a signal handler installed without SA_RESTART) */
+	const char *q = getenv("RTDRV_EINTR");
+	eintr_seed = q ? (unsigned) atoi(q) : 0;
+	eintr_on = q != NULL;
 }
 
 ssize_t
 write(int fd, const void *buf, size_t n)
 {
+	if (eintr_on && fd > 2 && 1) {
+		if (!sw_init) {
+			sw_state = eintr_seed * 2654435761u + (unsigned) syscall(SYS_gettid) * 40503u;
+			sw_init = 1;
+		}
+		if ((unsigned) rand_r(&sw_state) % 6 == 0) {
+			eintr_count++;
+			errno = EINTR;
+			return -1;
+		}
+	}
 	if (shortwrite_on && n > 1 && fd > 2) {
 		if (!sw_init) {
 			sw_state = shortwrite_seed * 2654435761u + (unsigned) syscall(SYS_gettid) * 40503u;
@@ -117,7 +136,7 @@ xwrite(int fd, const void *buf, size_t n)
 {
 	const uint8_t *p = buf;
 	while (n > 0) {
-		ssize_t w = write(fd, p, n);
+		ssize_t w = syscall(SYS_write, fd, p, n);
 		if (w < 0) {
 			if (errno == EINTR)
 				continue;
@@ -501,7 +520,7 @@ main(int argc, char *argv[])
 	if (do_fini)
 		ovni_proc_fini();
 
-	printf("RTDRV-DONE shortwrites=%lu\n", (unsigned long) sw_count);
+	printf("RTDRV-DONE shortwrites=%lu eintr=%lu\n", (unsigned long) sw_count, (unsigned long) eintr_count);
 	fflush(stdout);
 	return 0;
 }
